@@ -807,8 +807,18 @@ fn default_fields() -> Vec<String> {
 
 fn gen_query_filter(r: &mut StdRng) -> (Q, Option<F>) {
   let cfg = GenCfg { depth: 2, boosts: false, scoring_wrappers: false, filters_in_bool: true, expansions: true, nested_filters: false };
-  let q = match r.gen_range(0..10) {
+  let q = match r.gen_range(0..11) {
     0..=3 => Q::All,
+    // a clause that matches but weighs nothing (boost 0): its documents still belong to the
+    // matched set under every execution strategy
+    10 => Q::Bool {
+      must: vec![],
+      should: vec![
+        Q::Term { field: "body".into(), value: pick(r, &WORDS).to_string(), boost: None },
+        Q::Term { field: pick(r, &["body", "title"]).to_string(), value: pick(r, &WORDS).to_string(), boost: Some(0.0) },
+      ],
+      must_not: vec![], filter: vec![], msm: None, boost: None,
+    },
     4..=6 => gen_query(r, 0, &cfg),
     _ => {
       let depth = r.gen_range(1..=cfg.depth);
